@@ -313,6 +313,23 @@ func c02R2(p *Prog, r *Report) {
 		r.Bad("builder.mapField/pointer hop", p.PosStr(fi.Decl.Pos()), "a pointer hop in a goverter:map path is not guarded by a nil test before the member selection")
 	}
 	// (2) If(condition).Block(innerStmt…) and the temp variable
+	// the result variable: first operand of the success returns (last result nil) that is a plain local
+	resultObjs := map[types.Object]bool{}
+	ast.Inspect(fi.Decl, func(n ast.Node) bool {
+		ret, ok := n.(*ast.ReturnStmt)
+		if !ok || len(ret.Results) < 2 {
+			return true
+		}
+		if last, ok := ast.Unparen(ret.Results[len(ret.Results)-1]).(*ast.Ident); !ok || last.Name != "nil" {
+			return true
+		}
+		if id0, ok := ast.Unparen(ret.Results[0]).(*ast.Ident); ok && id0.Name != "nil" {
+			if o := info.ObjectOf(id0); o != nil {
+				resultObjs[o] = true
+			}
+		}
+		return true
+	})
 	wraps, temp := false, false
 	ast.Inspect(fi.Decl, func(n ast.Node) bool {
 		ifs, ok := n.(*ast.IfStmt)
@@ -335,7 +352,7 @@ func c02R2(p *Prog, r *Report) {
 					}
 				}
 			}
-			if as, ok := m.(*ast.AssignStmt); ok && len(as.Lhs) == 1 && exprString(as.Lhs[0]) == "returnID" {
+			if as, ok := m.(*ast.AssignStmt); ok && len(as.Lhs) == 1 && isResultIdent(info, as.Lhs[0], resultObjs) {
 				if c := callTo(info, as.Rhs[0], modPath+"/xtype", "", "VariableID"); c != nil {
 					if ch, ok := chainOf(info, c.Args[0]); ok && ch.Links[0].Name == "Id" {
 						if okN, _ := nameOriginOK(nil, fi, ch.Links[0].Args[0], map[string]bool{}, 0); okN {
@@ -353,6 +370,11 @@ func c02R2(p *Prog, r *Report) {
 	} else {
 		r.Bad("builder.mapField/guarded access", p.PosStr(fi.Decl.Pos()), "with a guarded pointer hop the member access is not wrapped in If(condition) or the raw path expression is handed out instead of the temporary")
 	}
+}
+
+func isResultIdent(info *types.Info, e ast.Expr, objs map[types.Object]bool) bool {
+	id0, ok := ast.Unparen(e).(*ast.Ident)
+	return ok && objs[info.ObjectOf(id0)]
 }
 
 // c02R4: loop shape.
